@@ -13,6 +13,17 @@ re-spellings never reach a rule:
       `if c: A else: <ends>` becomes `if not c: <ends>` followed by A; when both end, the positive test comes first
   N7  a `+` chain of string constants and `str(e)` calls becomes the f-string with the same parts; a lone f"{e}" becomes str(e)
 
+  N8  `isinstance(x, (A, B))` becomes `isinstance(x, A) or isinstance(x, B)`; `not (a or b)` / `not (a and b)` are pushed inward
+  N9  a chain of `if <boolean test>: return True/False` that ends in a return becomes the single boolean `return` expression
+  N10 a conditional expression that is the whole value of a return / an assignment, or the one conditional argument of a call statement
+      (or of the call an assignment stores), becomes the if/else statement with that return / assignment / call in each arm
+  N11 in the tail of a function an if-arm that ends in a bare `return` (in a loop body: a bare `continue`) is the same as an if/else with the
+      following statements in the other arm: the else form is used (an empty arm negates the test)
+  N12 `x += [a, b]`, `x.extend([a, b])` become `x.append(a); x.append(b)`; `x.extend(<generator or list comprehension>)` and
+      `x += [<list comprehension>]` become the for/if loops that append the element
+  N13 `d[k] if k in d else V`, `if k in d: x = d[k] else: x = V` and `x = V; if k in d: x = d[k]` (V a literal or a plain name; also under
+      bool()/int()/str()/float() when V is that conversion's fixed point) become `d.get(k, V)`; `.get(k, None)` is `.get(k)`
+
 Positions are kept (reports still name the original lines).  The transformation is the same for the tree the rules were
 written against and for the tree under analysis, so it can only remove differences, never create one.
 """
@@ -80,11 +91,16 @@ def _ends(body) -> bool:
 
 
 def _is_negative(t) -> bool:
+    if isinstance(t, ast.BoolOp):
+        return all(_is_negative(v) for v in t.values)       # not a or not b  ==  not (a and b)
     return (isinstance(t, ast.UnaryOp) and isinstance(t.op, ast.Not)) or \
         (isinstance(t, ast.Compare) and len(t.ops) == 1 and isinstance(t.ops[0], (ast.NotEq, ast.IsNot, ast.NotIn)))
 
 
 def _negate(t):
+    if isinstance(t, ast.BoolOp):
+        dual = ast.Or() if isinstance(t.op, ast.And) else ast.And()
+        return ast.copy_location(ast.BoolOp(op=dual, values=[_negate(v) for v in t.values]), t)
     if isinstance(t, ast.UnaryOp) and isinstance(t.op, ast.Not):
         return t.operand
     if isinstance(t, ast.Compare) and len(t.ops) == 1 and type(t.ops[0]) in _NEG:
@@ -105,6 +121,170 @@ def _str_parts(e):
         return list(e.values)
     return None
 
+_BOOL_CALLS = {"isinstance", "issubclass", "callable", "hasattr", "any", "all", "startswith", "endswith", "isdigit", "isalpha", "isalnum",
+               "isidentifier", "isspace", "exists", "is_dir", "is_file"}
+
+
+def _boolish(t) -> bool:
+    """syntactically certain to evaluate to a bool"""
+    if isinstance(t, ast.Constant):
+        return isinstance(t.value, bool)
+    if isinstance(t, ast.Compare):
+        return True
+    if isinstance(t, ast.UnaryOp) and isinstance(t.op, ast.Not):
+        return True
+    if isinstance(t, ast.BoolOp):
+        return all(_boolish(v) for v in t.values)
+    if isinstance(t, ast.Call):
+        f = t.func
+        name = f.id if isinstance(f, ast.Name) else f.attr if isinstance(f, ast.Attribute) else ""
+        return name in _BOOL_CALLS or name.startswith(("is_", "has_"))
+    return False
+
+
+def _plain(e) -> bool:
+    """an expression without calls or other effects (names, attributes, constants, subscripts of those)"""
+    return all(isinstance(n, (ast.Name, ast.Attribute, ast.Constant, ast.Subscript, ast.Load, ast.Store, ast.Tuple, ast.Index if hasattr(ast, "Index") else ast.Load,
+                              ast.UnaryOp, ast.USub, ast.UAdd, ast.Slice)) for n in ast.walk(e))
+
+
+def _is_none(e) -> bool:
+    return isinstance(e, ast.Constant) and e.value is None
+
+
+def _bool_const(e):
+    return e.value if isinstance(e, ast.Constant) and isinstance(e.value, bool) else None
+
+
+def _or(a, b, at):
+    vals = (a.values if isinstance(a, ast.BoolOp) and isinstance(a.op, ast.Or) else [a]) + (b.values if isinstance(b, ast.BoolOp) and isinstance(b.op, ast.Or) else [b])
+    return ast.copy_location(ast.BoolOp(op=ast.Or(), values=list(vals)), at)
+
+
+def _and(a, b, at):
+    vals = (a.values if isinstance(a, ast.BoolOp) and isinstance(a.op, ast.And) else [a]) + (b.values if isinstance(b, ast.BoolOp) and isinstance(b.op, ast.And) else [b])
+    return ast.copy_location(ast.BoolOp(op=ast.And(), values=list(vals)), at)
+
+
+def _expand_ifexp(st):
+    """N10: the statement with a conditional expression in a deciding position -> if/else statement (None when not applicable)"""
+    def split(make, ie):
+        a = ast.copy_location(make(ie.body), st)
+        b = ast.copy_location(make(ie.orelse), st)
+        return ast.copy_location(ast.If(test=ie.test, body=[a], orelse=[b]), st)
+
+    def call_with(call, k, v):
+        args = list(call.args)
+        args[k] = v
+        return ast.copy_location(ast.Call(func=call.func, args=args, keywords=call.keywords), call)
+
+    def one_ifexp_arg(call):
+        if not isinstance(call, ast.Call) or not _plain(call.func) or any(not _plain(k.value) for k in call.keywords):
+            return None
+        idx = [i for i, a in enumerate(call.args) if isinstance(a, ast.IfExp)]
+        if len(idx) != 1 or any(not _plain(a) for i, a in enumerate(call.args) if i != idx[0]):
+            return None
+        return idx[0]
+
+    if isinstance(st, ast.Return) and isinstance(st.value, ast.IfExp):
+        return split(lambda v: ast.Return(value=v), st.value)
+    if isinstance(st, ast.Assign) and len(st.targets) == 1 and _plain(st.targets[0]):
+        if isinstance(st.value, ast.IfExp):
+            return split(lambda v: ast.Assign(targets=st.targets, value=v), st.value)
+        k = one_ifexp_arg(st.value)
+        if k is not None:
+            return split(lambda v: ast.Assign(targets=st.targets, value=call_with(st.value, k, v)), st.value.args[k])
+    if isinstance(st, ast.Expr):
+        k = one_ifexp_arg(st.value)
+        if k is not None:
+            return split(lambda v: ast.Expr(value=call_with(st.value, k, v)), st.value.args[k])
+    return None
+
+
+def _appends(st):
+    """N12: list-growing statement -> the equivalent append statements / loops (None when not applicable)"""
+    def app(x, elt):
+        return ast.copy_location(ast.Expr(value=ast.copy_location(ast.Call(func=ast.Attribute(value=x, attr="append", ctx=ast.Load()), args=[elt], keywords=[]), st)), st)
+
+    def loops(x, comp):
+        inner = [app(x, comp.elt)]
+        for g in reversed(comp.generators):
+            if g.is_async:
+                return None
+            for c in reversed(g.ifs):
+                inner = [ast.copy_location(ast.If(test=c, body=inner, orelse=[]), st)]
+            inner = [ast.copy_location(ast.For(target=g.target, iter=g.iter, body=inner, orelse=[], type_comment=None), st)]
+        return inner
+
+    x = src_v = None
+    if isinstance(st, ast.AugAssign) and isinstance(st.op, ast.Add) and _plain(st.target):
+        x, src_v = st.target, st.value
+        x = _as_load(x)
+        if isinstance(src_v, ast.List) and src_v.elts and not any(isinstance(e, ast.Starred) for e in src_v.elts):
+            return [app(x, e) for e in src_v.elts]
+        if isinstance(src_v, ast.ListComp):
+            return loops(x, src_v)
+        return None
+    if isinstance(st, ast.Expr) and isinstance(st.value, ast.Call) and isinstance(st.value.func, ast.Attribute) and st.value.func.attr == "extend" \
+            and len(st.value.args) == 1 and not st.value.keywords and _plain(st.value.func.value):
+        x, src_v = st.value.func.value, st.value.args[0]
+        if isinstance(src_v, (ast.List, ast.Tuple)) and src_v.elts and not any(isinstance(e, ast.Starred) for e in src_v.elts):
+            return [app(x, e) for e in src_v.elts]
+        if isinstance(src_v, (ast.ListComp, ast.GeneratorExp)):
+            return loops(x, src_v)
+    return None
+
+
+_WRAP = {"bool": bool, "int": int, "str": str, "float": float}
+
+
+def _literal_default(v) -> bool:
+    if isinstance(v, ast.Constant):
+        return True
+    if isinstance(v, (ast.List, ast.Tuple, ast.Dict, ast.Set)):
+        return not (v.elts if not isinstance(v, ast.Dict) else v.keys)
+    return isinstance(v, (ast.Name, ast.Attribute)) and _plain(v)
+
+
+def _get_form(test, present, default):
+    """N13: `<present> if k in d else <default>` with present = d[k] or f(d[k]) -> d.get(k, default) / f(d.get(k, default)); None otherwise"""
+    if not (isinstance(test, ast.Compare) and len(test.ops) == 1 and isinstance(test.ops[0], ast.In) and _plain(test.left) and _plain(test.comparators[0])):
+        return None
+    if not _literal_default(default):
+        return None
+    k, d = test.left, test.comparators[0]
+    want = ast.dump(ast.Subscript(value=d, slice=k, ctx=ast.Load()))
+
+    def get(at):
+        args = [k] if (isinstance(default, ast.Constant) and default.value is None) else [k, default]
+        return ast.copy_location(ast.Call(func=ast.Attribute(value=_as_load(d), attr="get", ctx=ast.Load()), args=args, keywords=[]), at)
+
+    if ast.dump(_as_load(present)) == want:
+        return get(present)
+    if isinstance(present, ast.Call) and isinstance(present.func, ast.Name) and present.func.id in _WRAP and len(present.args) == 1 and not present.keywords \
+            and ast.dump(_as_load(present.args[0])) == want and isinstance(default, ast.Constant):
+        try:
+            if _WRAP[present.func.id](default.value) == default.value and type(_WRAP[present.func.id](default.value)) is type(default.value):
+                return ast.copy_location(ast.Call(func=present.func, args=[get(present)], keywords=[]), present)
+        except Exception:
+            return None
+    return None
+
+
+def _one_assign(stmts):
+    if len(stmts) == 1 and isinstance(stmts[0], ast.Assign) and len(stmts[0].targets) == 1 and _plain(stmts[0].targets[0]):
+        return stmts[0]
+    return None
+
+
+def _as_load(t):
+    import copy
+    c = copy.deepcopy(t)
+    for n in ast.walk(c):
+        if hasattr(n, "ctx"):
+            n.ctx = ast.Load()
+    return c
+
 
 class _Norm(ast.NodeTransformer):
     def __init__(self):
@@ -113,6 +293,22 @@ class _Norm(ast.NodeTransformer):
 
     def _block(self, body, in_function=True):
         out = []
+        if in_function:
+            expanded = []
+            if self.fn_stack:
+                body = self._n4(list(body))       # `t = a if c else b; return t` is `return a if c else b` before the conditional is expanded
+            for st in body:
+                rep = _expand_ifexp(st)
+                if rep is not None:
+                    expanded.append(self.visit(rep))          # nested conditional expressions, guard-clause form of the new if
+                    continue
+                reps = _appends(st)
+                if reps is not None:
+                    for r in reps:
+                        expanded.append(self.visit(r))
+                    continue
+                expanded.append(st)
+            body = self._get_statements(expanded)
         for st in body:
             if _is_quiet_log(st):
                 continue
@@ -149,25 +345,70 @@ class _Norm(ast.NodeTransformer):
                 res.append(st)
                 i += 1
             out = res
+        # N9: boolean return chain
+        if in_function:
+            while len(out) >= 2 and isinstance(out[-1], ast.Return) and out[-1].value is not None and isinstance(out[-2], ast.If) \
+                    and not out[-2].orelse and len(out[-2].body) == 1 and isinstance(out[-2].body[0], ast.Return) \
+                    and _bool_const(out[-2].body[0].value) is not None and _boolish(out[-2].test):
+                c, last = out[-2].test, out[-1].value
+                if _bool_const(out[-2].body[0].value):
+                    v = c if _bool_const(last) is False else _or(c, last, out[-2])
+                else:
+                    nc = self.visit(_negate(c))
+                    v = nc if _bool_const(last) is True else _and(nc, last, out[-2])
+                out[-2:] = [ast.copy_location(ast.Return(value=v), out[-2])]
         # N4
         if self.fn_stack and in_function:
-            fn = self.fn_stack[-1]
-            res = []
-            i = 0
-            while i < len(out):
-                a = out[i]
-                b = out[i + 1] if i + 1 < len(out) else None
-                if isinstance(a, ast.Assign) and len(a.targets) == 1 and isinstance(a.targets[0], ast.Name) and isinstance(b, ast.Return) \
-                        and isinstance(b.value, ast.Name) and b.value.id == a.targets[0].id and self._only_return_temp(fn, a.targets[0].id):
-                    res.append(ast.copy_location(ast.Return(value=a.value), a))
-                    i += 2
-                    continue
-                res.append(a)
-                i += 1
-            out = res
+            out = self._n4(out)
         if not out:
             out = [ast.copy_location(ast.Pass(), body[0])] if body else []
         return out
+
+    def _n4(self, out):
+        fn = self.fn_stack[-1]
+        res = []
+        i = 0
+        while i < len(out):
+            a = out[i]
+            b = out[i + 1] if i + 1 < len(out) else None
+            if isinstance(a, ast.Assign) and len(a.targets) == 1 and isinstance(a.targets[0], ast.Name) and isinstance(b, ast.Return) \
+                    and isinstance(b.value, ast.Name) and b.value.id == a.targets[0].id and self._only_return_temp(fn, a.targets[0].id):
+                res.append(ast.copy_location(ast.Return(value=a.value), a))
+                i += 2
+                continue
+            res.append(a)
+            i += 1
+        return res
+
+    def _get_statements(self, body):
+        """N13 at statement level: `if k in d: x = d[k] else: x = V` and `x = V; if k in d: x = d[k]` -> `x = d.get(k, V)`"""
+        out = []
+        for st in body:
+            if isinstance(st, ast.If):
+                a, b = _one_assign(st.body), _one_assign(st.orelse)
+                if a is not None and b is not None and ast.dump(a.targets[0]) == ast.dump(b.targets[0]):
+                    g = _get_form(st.test, a.value, b.value)
+                    if g is None and _is_negative(st.test):
+                        g = _get_form(_negate(st.test), b.value, a.value)
+                    if g is not None:
+                        out.append(ast.copy_location(ast.Assign(targets=a.targets, value=g), st))
+                        continue
+                if a is not None and not st.orelse and out:
+                    prev = out[-1]
+                    if isinstance(prev, ast.Assign) and len(prev.targets) == 1 and ast.dump(prev.targets[0]) == ast.dump(a.targets[0]):
+                        g = _get_form(st.test, a.value, prev.value)
+                        if g is not None:
+                            out[-1] = ast.copy_location(ast.Assign(targets=a.targets, value=g), prev)
+                            continue
+            out.append(st)
+        return out
+
+    def visit_IfExp(self, node):
+        self.generic_visit(node)
+        g = _get_form(node.test, node.body, node.orelse)
+        if g is None and _is_negative(node.test):
+            g = _get_form(_negate(node.test), node.orelse, node.body)
+        return g if g is not None else node
 
     def _only_return_temp(self, fn, name) -> bool:
         key = (id(fn), name)
@@ -192,12 +433,91 @@ class _Norm(ast.NodeTransformer):
     def visit_FunctionDef(self, node):
         self.fn_stack.append(node)
         self.generic_visit(node)
+        node.body = self._tail_form(node.body, ast.Return) or [ast.copy_location(ast.Pass(), node)]
         self.fn_stack.pop()
         return node
     visit_AsyncFunctionDef = visit_FunctionDef
 
+    def visit_For(self, node):
+        self.generic_visit(node)
+        if self.fn_stack:
+            node.body = self._tail_form(node.body, ast.Continue) or [ast.copy_location(ast.Pass(), node)]
+        return node
+    visit_While = visit_For
+
+    @staticmethod
+    def _bare(st, kind) -> bool:
+        return isinstance(st, kind) and (kind is ast.Continue or st.value is None or _is_none(st.value))
+
+    def _tail_form(self, body, kind):
+        """N11 on a statement list in tail position of a function (kind = Return) or of a loop body (kind = Continue)."""
+        out = list(body)
+        while out and self._bare(out[-1], kind):
+            out.pop()
+        for i, st in enumerate(out):
+            if not isinstance(st, ast.If):
+                continue
+            b_bare = bool(st.body) and self._bare(st.body[-1], kind)
+            e_bare = bool(st.orelse) and self._bare(st.orelse[-1], kind)
+            last = i == len(out) - 1
+            if not (b_bare or e_bare):
+                if last:
+                    st.body = self._tail_form(st.body, kind) or [ast.copy_location(ast.Pass(), st)]
+                    st.orelse = self._tail_form(st.orelse, kind)
+                    self._polarity(st)
+                continue
+            rest = out[i + 1:]
+            nb = st.body[:-1] if b_bare else st.body + ([] if _ends(st.body) else rest)
+            ne = st.orelse[:-1] if e_bare else st.orelse + ([] if _ends(st.orelse) else rest)
+            st.body = self._tail_form(nb, kind)
+            st.orelse = self._tail_form(ne, kind)
+            if not st.body and not st.orelse:
+                st.body = [ast.copy_location(ast.Pass(), st)]
+            self._polarity(st)
+            return out[:i + 1]
+        return out
+
+    def _polarity(self, st):
+        """an if produced by N11: empty body -> negated test; negative test with both arms -> positive test first"""
+        if not st.body and st.orelse:
+            st.test = self.visit(_negate(st.test))
+            st.body, st.orelse = st.orelse, []
+        if st.orelse and _is_negative(st.test) and not (len(st.orelse) == 1 and isinstance(st.orelse[0], ast.If)) \
+                and _ends(st.body) == _ends(st.orelse):
+            st.test = _negate(st.test)
+            st.body, st.orelse = st.orelse, st.body
+        if not st.body:
+            st.body = [ast.copy_location(ast.Pass(), st)]
+
+    def visit_Call(self, node):
+        self.generic_visit(node)
+        if isinstance(node.func, ast.Attribute) and node.func.attr == "get" and len(node.args) == 2 and not node.keywords and _is_none(node.args[1]):
+            node.args = node.args[:1]
+        if isinstance(node.func, ast.Name) and node.func.id == "isinstance" and len(node.args) == 2 and not node.keywords \
+                and isinstance(node.args[1], ast.Tuple) and len(node.args[1].elts) >= 2 and _plain(node.args[0]):
+            vals = [ast.copy_location(ast.Call(func=node.func, args=[node.args[0], t], keywords=[]), node) for t in node.args[1].elts]
+            return ast.copy_location(ast.BoolOp(op=ast.Or(), values=vals), node)
+        return node
+
+    def visit_BoolOp(self, node):
+        self.generic_visit(node)
+        vals = []
+        for v in node.values:
+            if isinstance(v, ast.BoolOp) and type(v.op) is type(node.op):
+                vals.extend(v.values)
+            else:
+                vals.append(v)
+        node.values = vals
+        return node
+
     def visit_UnaryOp(self, node):
         self.generic_visit(node)
+        if isinstance(node.op, ast.Not) and isinstance(node.operand, ast.BoolOp):
+            b = node.operand
+            dual = ast.Or() if isinstance(b.op, ast.And) else ast.And()
+            return self.visit_BoolOp(ast.copy_location(ast.BoolOp(op=dual, values=[self.visit(_negate(v)) for v in b.values]), node))
+        if isinstance(node.op, ast.Not) and isinstance(node.operand, ast.UnaryOp) and isinstance(node.operand.op, ast.Not) and _boolish(node.operand.operand):
+            return node.operand.operand
         if isinstance(node.op, ast.Not) and isinstance(node.operand, ast.Compare) and len(node.operand.ops) == 1 and type(node.operand.ops[0]) in _NEG:
             c = node.operand
             return ast.copy_location(ast.Compare(left=c.left, ops=[_NEG[type(c.ops[0])]()], comparators=c.comparators), node)
@@ -227,18 +547,20 @@ class _Norm(ast.NodeTransformer):
     def visit_If(self, node):
         self.generic_visit(node)
         while node.orelse and not (len(node.orelse) == 1 and isinstance(node.orelse[0], ast.If)) and not _ends(node.body) and not _ends(node.orelse):
-            t = node.test
-            if isinstance(t, ast.UnaryOp) and isinstance(t.op, ast.Not):
-                node.test = t.operand
-            elif isinstance(t, ast.Compare) and len(t.ops) == 1 and isinstance(t.ops[0], (ast.NotEq, ast.IsNot, ast.NotIn)):
-                node.test = ast.copy_location(ast.Compare(left=t.left, ops=[_NEG[type(t.ops[0])]()], comparators=t.comparators), t)
-            else:
+            if not _is_negative(node.test):
                 break
+            node.test = _negate(node.test)
             node.body, node.orelse = node.orelse, node.body
         return node
 
 
 def normalise(tree: ast.Module) -> ast.Module:
-    tree = _Norm().visit(tree)
-    ast.fix_missing_locations(tree)
+    prev = None
+    for _ in range(5):                       # one form can complete the pattern of another: run to the fixed point
+        tree = _Norm().visit(tree)
+        ast.fix_missing_locations(tree)
+        cur = ast.dump(tree)
+        if cur == prev:
+            break
+        prev = cur
     return tree
